@@ -53,11 +53,35 @@ extern "C" int LLVMFuzzerTestOneInput(const std::uint8_t* data, std::size_t size
         return t;
     }();
     (void)props;
+    // libFuzzer ends with exit(): the pool's static method objects were
+    // detached from their catalogs and must not be destroyed
+    static bool once = [] {
+        std::atexit([] {
+            fflush(nullptr);
+            _exit(0);
+        });
+        return true;
+    }();
+    (void)once;
     vf::BytesChoice ch(data, size);
     auto& prop = table[ch.draw(std::uint32_t(table.size()))];
     int gsize = 1 + int(ch.draw(60));
     std::function<vf::json()> lazy;
-    vf::Outcome o = prop.fast(ch, gsize, lazy);
+    vf::Outcome o;
+    if (const char* dump = getenv("VERIF_FUZZ_DUMP")) {
+        // triage of a crashing input: record the decoded case before running
+        vf::json c = prop.generate(ch, gsize);
+        vf::save_json(dump, {{"property", prop.id},
+                             {"variant", prop.variant},
+                             {"engine", "e1"},
+                             {"case", c},
+                             {"message", "crash"},
+                             {"crash", true}});
+        o = prop.run(c);
+        lazy = [c]() { return c; };
+    } else {
+        o = prop.fast(ch, gsize, lazy);
+    }
     ++g_execs;
     g_nontrivial += o.nontrivial;
     if (!o.ok && o.excluded.empty()) {
